@@ -351,5 +351,34 @@ int main(int argc, char **argv) {
         }
         vf::space("exact rational ILU(k), k=1..3: all n=5 patterns with full diagonal and at most 5 off-diagonal entries x value rules {0,2}");
     }
+    if (vf::section("qk6")) {
+        // ILU(k), k >= 2, on 6x6 patterns: the smallest size on which a fill position is reached first through a longer and then
+        // through a shorter path AND a further fill depends on which level was recorded for it (0<1<2<3 pivots, row 4, column 5).
+        // all patterns with full diagonal and at most 6 off-diagonal entries
+        const int n = 6, maxoff = 6;
+        for (uint64_t mask = 0; mask < (1ull << 30); ++mask) {
+            if (popc(mask) > maxoff) { mask |= mask - 1; continue; }       // skip ahead: every mask up to the next carry has at least as many bits
+            std::string key;
+            if (!vf::take([&]{ return key = (vf::KS() << "qk6|" << n << "|" << mask).str(); })) continue;
+            if (key.empty()) key = vf::KS() << "qk6|" << n << "|" << mask;
+            for (int rule = 0; rule < (vf::thorough() ? 3 : 1); rule += 2) {
+                Case c{key, n, rule, make_imat(n, mask, rule)};
+                c.Aq = to_qm(c.A);
+                if (!inverse(c.Aq, c.Ainv)) { vf::fail("harness.singular_matrix", key, c.at()); continue; }
+                c.Ac = to_crs<Q>(c.A, [](int, int, int v) { return Q(v); });
+                make_tests(c);
+                Pat P0 = pattern_of(c.A);
+                Pat P1 = iluk_pattern(P0, n, 1), P2 = iluk_pattern(P0, n, 2);
+                if (P2 == P1) { vf::count("qk6_no_level2_fill_skipped"); continue; }      // nothing that k = 1 (covered elsewhere) does not see
+                for (int k = 2; k <= (vf::thorough() ? 3 : 2); ++k) {
+                    relaxation::iluk<B>::params p; p.k = k;
+                    Pat Pk = iluk_pattern(P0, n, k);
+                    check_ilu< relaxation::iluk<B> >(c, "iluk", p, &Pk, vf::KS() << "k=" << k, false, true);
+                }
+                vf::nontrivial(vf::hstr(vf::KS() << key << "|" << rule));
+            }
+        }
+        vf::space("exact rational ILU(k), k=2 (thorough: 2..3, value rules {0,2}): all n=6 patterns with full diagonal and at most 6 off-diagonal entries that have level-2 fill");
+    }
     return vf::finish();
 }
